@@ -194,3 +194,20 @@ Definition stop_race_class (o_cb : list Z) (o_done o_closers o_panic o_serve : b
 Definition tick_class (trig : Z) (o_ret : bool) (o_err : Z) (o_late : bool) : N :=
   let c := op_class (negb (trig =? 4)) o_ret o_err in
   if negb (N.eqb c 0) then c else if negb o_late then 1%N else 0%N.
+
+(* on-close callbacks are registered while the connection is shutting down (by an on-close callback, or by another
+   goroutine while an on-close callback runs): every callback that was registered before Close ran exactly once and
+   none of the callbacks registered during the shutdown ran more than once (3), Done is completed (4), Close
+   returned (5). *)
+Definition reg_class (o_cb o_late : list Z) (o_done o_closers : bool) : N :=
+  if negb (forallb (fun c => c =? 1) o_cb) || negb (forallb (fun c => c <=? 1) o_late) then 3%N
+  else if negb o_done then 4%N
+  else if negb o_closers then 5%N
+  else 0%N.
+
+(* a stream server is stopped while an accepted connection is still being set up (its OnNewConn hook runs, or it
+   is in the TLS handshake) and the peer is silent: every Stop call returns and does not panic (5), Serve returns (7),
+   the done signal of every connection the application was handed is completed and its context cancelled (4), every
+   registered on-close callback ran exactly once (3). *)
+Definition setup_stop_class (o_cb : list Z) (o_done o_ctx o_closers o_panic o_serve : bool) : N :=
+  close_class o_cb (o_done && o_ctx) o_closers o_panic true o_serve.
